@@ -142,6 +142,9 @@ func runC10(r *fw.Run) {
 		}
 		for si := ci; si < len(streams); si += len(cfgs) {
 			S := streams[si]
+			if r.ViolationCount() > 12 || g.tainted {
+				break
+			}
 			r.Distinct("stream_kinds", whats[si])
 			// all offsets, both abort styles
 			type off struct {
@@ -163,6 +166,9 @@ func runC10(r *fw.Run) {
 				cc.Conns = append(cc.Conns, genConnScript(rng, jg, fmt.Sprintf("g%d", good), 4, false))
 				for _, o := range offs[b:e] {
 					cc.Conns = append(cc.Conns, &ConnScript{Stream: S, Cut: o.k, Hard: o.hard, Seg: []int{0, 0, 2, 3}[rng.Intn(4)], SegS: rng.Int63(), What: whats[si]})
+				}
+				if r.ViolationCount() > 12 || g.tainted {
+					break
 				}
 				r.Journal(0, cc)
 				c01Round(r, g, "C10", cc, true)
